@@ -139,7 +139,7 @@ def describe(job):
 
 
 def model_opts(tname):
-    return copy.deepcopy(fresh(tname) or {})
+    return c16_gen.model_options(copy.deepcopy(fresh(tname)))
 
 
 def inputs(ctx):
@@ -171,7 +171,9 @@ def inputs(ctx):
     # all sequences of up to 2 (thorough: 3) tokens over the small case alphabets, options of that alphabet
     for on, toks in c16_gen.CASE_TOKENS:
         for s in c16_gen.case_token_strings(toks, 2 if quick else 3):
-            add(s, 'ab' if on == 'ab' else rng.choice(['html', 'xml', 'nospecial', 'defaults-explicit']), 'calls:token-sequences')
+            add(s, rng.choice(['ab', 'ab', 'ab-flags', 'ab-xml-flags']) if on == 'ab' else
+                rng.choice(['html', 'xml', 'nospecial', 'defaults-explicit', 'special-flag-true', 'special-falsy-values',
+                            'special-collections']), 'calls:token-sequences')
     # generated option-sensitive documents: as generated, and mutated (delete / insert / replace / truncate / duplicate)
     n_doc = 700 if quick else 12000
     for i in range(n_doc):
@@ -197,7 +199,11 @@ def run_calls(ctx):
     quick = ctx.tier == 'quick'
     ctx.cov['rule'] = ctx.cov.get('rule', '') + (
         ' HTML CALL SEQUENCES (caller-owned options): every options object is built fresh from one of %d templates (%s) '
-        'and shared the way a caller shares it -- `event`: one object per (string, position) passed to match, '
+        '-- among them OPTION VALUES OF EVERY TYPE that can express the documented meaning: `xml` as True / 1 / 0 / None, '
+        '`empty` as list / tuple / frozenset / dict keys, a `special` entry as None, as a flag (True, 1), as another empty '
+        'value (False, 0, \'\', ()), as list / empty list / tuple / frozenset / dict / string, a `special` table that is None '
+        '(for the model: xml by truth, a non-list entry = always special, as the code reads them; oracle = the statement '
+        'only) -- and shared the way a caller shares it -- `event`: one object per (string, position) passed to match, '
         'balanced_outward, balanced_inward in one of the 6 orders; `document`: one object per string passed to scan (its '
         '`special` table) and to the three functions at all positions; `interleaved`: two objects from different templates '
         'per (string, position), calls alternating between them. Strings: %d hand-written documents in which xml / empty / '
